@@ -176,6 +176,14 @@ class Env(gpp.UGenParameter, gpp.NodeParameter):
         self.__envgen_format = None
         self.__interpolation_format = None
 
+    def __setattr__(self, name, value):
+        # The cached server formats depend on these parameters.
+        if name in ('levels', 'times', 'curves', 'release_node',
+                    'loop_node', 'offset'):
+            self.__envgen_format = None
+            self.__interpolation_format = None
+        super().__setattr__(name, value)
+
     # no newClear
     # no kr
     # no ar
